@@ -632,6 +632,12 @@ let inconsistency (d : data) (f : fs) (name : string) : fs =
     on_first_trip d f (fun t -> match t.tm_arr, t.tm_dep with
         | a0 :: _ :: ar, d0 :: _ -> { t with tm_arr = a0 :: z_of_int (int_of_z d0 - 1) :: ar }
         | _, _ -> t)
+  | "trip_first_arrival_after_departure" ->
+    (* the FIRST stop's arrival is after its departure: not one of the order tests of the schedule loader (the arrival at
+       the first stop is never used), the trip loads *)
+    on_first_trip d f (fun t -> match t.tm_arr, t.tm_dep with
+        | _ :: ar, d0 :: _ -> { t with tm_arr = z_of_int (int_of_z d0 + 7) :: ar }
+        | _, _ -> t)
   | "trip_negative_departure" ->
     on_first_trip d f (fun t -> match t.tm_dep with _ :: r -> { t with tm_dep = z_of_int (-1) :: r } | [] -> t)
   | "trips_times_backwards" ->
